@@ -57,6 +57,15 @@ def gen(seed, tier):
             tsteps += [["sleep", rng.choice([0.0, 0.1, 0.3])], ["execute", pid]]
     if tsteps:
         payloads.append({"id": "texec", "flavour": "threading", "via": "queued", "steps": tsteps + [["return", "none"]]})
+    # execute(flavour=trio) from callers that are themselves inside trio: a trio payload of the runtime, and a
+    # thread payload driving a private trio.run.  The unchanged tree refuses both (RuntimeError from trio's
+    # blocking-call check), so nothing may ever run outside the one trio run.
+    if rng.random() < 0.4:
+        payloads.append({"id": "xs", "flavour": "trio", "via": "execute", "steps": [["section", 3], ["sleep", 0.2], ["section", 3], ["return", "obj"]]})
+        if rng.random() < 0.5:
+            payloads.append({"id": "tcaller", "flavour": "trio", "via": "queued", "steps": [["sleep", rng.choice([0.1, 0.4])], ["execute", "xs"], ["sleep", 0.1], ["return", "none"]]})
+        else:
+            payloads.append({"id": "tcaller", "flavour": "threading", "via": "queued", "steps": [["sleep", rng.choice([0.1, 0.4])], ["private-trio", [["execute", "xs"], ["sleep", 0.3]]], ["return", "none"]]})
     dscript += [["sleep", rng.choice([2.0, 3.0, 6.0])], ["mark", "before-shutdown"], ["shutdown"]]
     knobs["horizon"] = 60.0
     rng.shuffle(payloads)
